@@ -642,6 +642,43 @@ func runC10(c *Ctx) {
 			"the exceeding edge constructs the size-limit error", "a limit check's exceeding edge does not construct the size-limit (resource_exhausted) error")
 	}
 
+	// ---------------------------------------------------------------- C10.6
+	// The limit-enforcing reader tells 'exactly the limit' from 'more than the limit' by letting
+	// the source deliver one byte more.  It must never end the stream on its own: a synthesised
+	// io.EOF at 'limit bytes consumed' silently truncates a longer body whenever a chunk
+	// boundary happens to fall on the limit.
+	c.Rule("C10.6", "the limit-enforcing reader ends the stream only when its source does", 1)
+	{
+		hlr := p.MustNamed("hardLimitReader")
+		rd := p.MethodOf(types.NewPointer(hlr), "Read")
+		if rd == nil {
+			fatalf("anchor=hardLimitReader.Read not found")
+		}
+		var synth []string
+		nRet := 0
+		ForEachInstr(rd, func(in ssa.Instruction) {
+			ret, ok := in.(*ssa.Return)
+			if !ok || ret.Block() == rd.Recover {
+				return
+			}
+			rv := ReturnValues(ret)
+			if len(rv) != 2 {
+				return
+			}
+			nRet++
+			for _, l := range Origins(rv[1]) {
+				if l.Kind == "global" {
+					if g, ok := l.V.(*ssa.Global); ok && g.Pkg != nil && g.Pkg.Pkg.Path() == "io" && g.Name() == "EOF" {
+						synth = append(synth, p.Pos(ret.Pos()))
+					}
+				}
+			}
+		})
+		c.Check(len(synth) == 0 && nRet > 0, "C10.6", FuncName(rd), "no-synthesised-eof", rd.Pos(),
+			"every error the reader returns is its source's own or the limit error; it never produces io.EOF itself",
+			"the limit-enforcing reader returns io.EOF of its own ("+joinStr(synth)+"): once exactly 'limit' bytes were consumed the rest of a longer body is cut off silently instead of being rejected - depending on where the chunk boundaries fall")
+	}
+
 	// ---------------------------------------------------------------- C10.5
 	// The resource_exhausted error must reach the client: wherever a limit error is constructed at
 	// request time it is handed to a reporter, or returned to the caller (whose handling C09.4
